@@ -97,6 +97,27 @@ def accumulate (N : Nat) (first : TreeRec α) (rest : List (List Nat × TreeRec 
 
 end Acc
 
+section Rule
+
+/-- Walk up the previous tree from `u` (at most `fuel` steps): `while node != NULL: …; node = parent(node)`. -/
+def upPath (par : Array (Option Nat)) : Nat → Nat → List Nat
+  | 0, u => [u]
+  | f + 1, u => u :: (match aget par u with
+    | some p => upPath par f p
+    | none => [])
+
+/-- `changed_nodes`: children of edges going out or coming in (parent differs) and parents of edges coming in. -/
+def changedNodes (N : Nat) (par par' : Array (Option Nat)) : List Nat :=
+  let ch := (List.range N).filter (fun c => aget par c != aget par' c)
+  ch ++ ch.filterMap (fun c => aget par' c)
+
+/-- The flush rule of `first_pass`: the upward closure of the changed nodes in the previous tree, plus
+every node of the previous tree when the number of samples in the tree changes. -/
+def ruleFlush (N : Nat) (par par' : Array (Option Nat)) (T T' : Nat) (inPrev : Nat → Bool) : List Nat :=
+  (changedNodes N par par').flatMap (upPath par N) ++ (if T != T' then (List.range N).filter inPrev else [])
+
+end Rule
+
 section Read
 variable {α : Type} [Add α] [OfNat α 0]
 
